@@ -11,24 +11,24 @@ namespace CalmVerif.Obf
 open CalmVerif CalmVerif.Unparse
 
 /-- the two hooks agree, or both answer with a string and the plain one answers the node's value -/
-def HookRel (fA fB : Path → Val → Unit → Except Err (Val × Unit)) : Prop :=
+def HookRel (Q : String → String → Prop) (fA fB : Path → Val → Unit → Except Err (Val × Unit)) : Prop :=
   ∀ path node va vb sa sb, fA path node () = .ok (va, sa) → fB path node () = .ok (vb, sb) →
-    va = vb ∨ ∃ ta tb, va = .str ta ∧ vb = .str tb ∧ nodeAttr node "value" = some (.str tb)
+    va = vb ∨ ∃ ta tb, va = .str ta ∧ vb = .str tb ∧ nodeAttr node "value" = some (.str tb) ∧ Q ta tb
 
 /-- the configuration of the plain run: the same, with the other Resolve hook -/
 def withResolve (cfg : Cfg Unit) (f : Path → Val → Unit → Except Err (Val × Unit)) : Cfg Unit :=
   { cfg with resolve := some f }
 
 /-- the token emitted for an Identifier's resolved name `ta` / for its own value `tb` -/
-def TokRel (cfg : Cfg Unit) (ca cb : List Chunk) : Prop :=
+def TokRel (Q : String → String → Prop) (cfg : Cfg Unit) (ca cb : List Chunk) : Prop :=
   ∃ pos node src ta tb, isKind cfg.hd.identifierKinds node = true ∧
-    nodeAttr node "value" = some (.str tb) ∧
+    nodeAttr node "value" = some (.str tb) ∧ Q ta tb ∧
     emitToken cfg pos node src (.str ta) = .ok ca ∧ emitToken cfg pos node src (.str tb) = .ok cb
 
-inductive CRel (cfg : Cfg Unit) : List Chunk → List Chunk → Prop where
-  | refl (cs : List Chunk) : CRel cfg cs cs
-  | tok (ca cb : List Chunk) : TokRel cfg ca cb → CRel cfg ca cb
-  | app (a b a' b' : List Chunk) : CRel cfg a b → CRel cfg a' b' → CRel cfg (a ++ a') (b ++ b')
+inductive CRel (Q : String → String → Prop) (cfg : Cfg Unit) : List Chunk → List Chunk → Prop where
+  | refl (cs : List Chunk) : CRel Q cfg cs cs
+  | tok (ca cb : List Chunk) : TokRel Q cfg ca cb → CRel Q cfg ca cb
+  | app (a b a' b' : List Chunk) : CRel Q cfg a b → CRel Q cfg a' b' → CRel Q cfg (a ++ a') (b ++ b')
 
 /-! ### what does not depend on the Resolve hook (all by unfolding) -/
 
@@ -102,15 +102,15 @@ theorem ruleStep_commentsAttr (cfg : Cfg Unit) (wn : WalkFn Unit) (path : Path) 
   | ok p => obtain ⟨v, s'⟩ := p; rfl
 
 section
-variable {cfg : Cfg Unit} {fA fB : Path → Val → Unit → Except Err (Val × Unit)}
-  (hA : cfg.resolve = some fA) (hrel : HookRel fA fB)
+variable {Q : String → String → Prop} {cfg : Cfg Unit} {fA fB : Path → Val → Unit → Except Err (Val × Unit)}
+  (hA : cfg.resolve = some fA) (hrel : HookRel Q fA fB)
 include hA hrel
 
 theorem getSrc_rel (path : Path) (node : Val) (a : AttrSrc) (va vb : Val) (sa sb : Unit)
     (ha : getSrc cfg path node a () = .ok (va, sa))
     (hb : getSrc (withResolve cfg fB) path node a () = .ok (vb, sb)) :
     va = vb ∨ (a = .resolve ∧ isKind cfg.hd.identifierKinds node = true ∧
-      ∃ ta tb, va = .str ta ∧ vb = .str tb ∧ nodeAttr node "value" = some (.str tb)) := by
+      ∃ ta tb, va = .str ta ∧ vb = .str tb ∧ nodeAttr node "value" = some (.str tb) ∧ Q ta tb) := by
   by_cases hr : a = .resolve
   · subst hr
     have eb : getSrc (withResolve cfg fB) path node .resolve () =
@@ -150,15 +150,15 @@ theorem getIter_rel (path : Path) (node : Val) (a : AttrSrc) (ia ib : List (Step
     cases hb; rfl
 
 /-- the recursive callbacks are related -/
-def WalkFnRel (cfg : Cfg Unit) (wa wb : WalkFn Unit) : Prop :=
+def WalkFnRel (Q : String → String → Prop) (cfg : Cfg Unit) (wa wb : WalkFn Unit) : Prop :=
   ∀ path src node defn ca cb sa sb, wa path src node defn () = .ok (ca, sa) →
-    wb path src node defn () = .ok (cb, sb) → CRel cfg ca cb
+    wb path src node defn () = .ok (cb, sb) → CRel Q cfg ca cb
 
 omit hA hrel in
-theorem walkValue_rel (wa wb : WalkFn Unit) (hw : WalkFnRel cfg wa wb) (path : Path) (src : Src) (cur : Val)
+theorem walkValue_rel (wa wb : WalkFn Unit) (hw : WalkFnRel Q cfg wa wb) (path : Path) (src : Src) (cur : Val)
     (pos : Option Int) (st : Step) (v : Val) (ca cb : List Chunk) (sa sb : Unit)
     (ha : walkValue cfg wa path src cur pos st v () = .ok (ca, sa))
-    (hb : walkValue (withResolve cfg fB) wb path src cur pos st v () = .ok (cb, sb)) : CRel cfg ca cb := by
+    (hb : walkValue (withResolve cfg fB) wb path src cur pos st v () = .ok (cb, sb)) : CRel Q cfg ca cb := by
   cases v with
   | node k as => exact hw _ _ _ _ _ _ _ _ ha hb
   | none =>
@@ -179,9 +179,9 @@ theorem walkValue_rel (wa wb : WalkFn Unit) (hw : WalkFnRel cfg wa wb) (path : P
 
 omit hA hrel in
 theorem seqM_rel {α : Type} (f g : α → Unit → Except Err (List Chunk × Unit))
-    (hfg : ∀ x ca cb sa sb, f x () = .ok (ca, sa) → g x () = .ok (cb, sb) → CRel cfg ca cb) :
+    (hfg : ∀ x ca cb sa sb, f x () = .ok (ca, sa) → g x () = .ok (cb, sb) → CRel Q cfg ca cb) :
     ∀ (xs : List α) (ca cb : List Chunk) (sa sb : Unit), seqM f xs () = .ok (ca, sa) →
-      seqM g xs () = .ok (cb, sb) → CRel cfg ca cb := by
+      seqM g xs () = .ok (cb, sb) → CRel Q cfg ca cb := by
   intro xs
   induction xs with
   | nil =>
@@ -196,20 +196,20 @@ theorem seqM_rel {α : Type} (f g : α → Unit → Except Err (List Chunk × Un
     exact .app _ _ _ _ (hfg x _ _ _ _ h1 g1) (ih _ _ _ _ h2 g2)
 
 omit hA hrel in
-theorem runAct_rel (wa wb : WalkFn Unit) (hw : WalkFnRel cfg wa wb) (path : Path) (src : Src) (cur : Val)
+theorem runAct_rel (wa wb : WalkFn Unit) (hw : WalkFnRel Q cfg wa wb) (path : Path) (src : Src) (cur : Val)
     (pos : Option Int) (sep : List Rule) (a : JAct) (ca cb : List Chunk) (sa sb : Unit)
     (ha : runAct cfg wa path src cur pos sep a () = .ok (ca, sa))
-    (hb : runAct (withResolve cfg fB) wb path src cur pos sep a () = .ok (cb, sb)) : CRel cfg ca cb := by
+    (hb : runAct (withResolve cfg fB) wb path src cur pos sep a () = .ok (cb, sb)) : CRel Q cfg ca cb := by
   cases a with
   | item st v => exact walkValue_rel wa wb hw _ _ _ _ _ _ _ _ _ _ ha hb
   | sep => exact hw _ _ _ _ _ _ _ _ ha hb
   | esep => exact hw _ _ _ _ _ _ _ _ ha hb
 
-theorem attr_rel (wa wb : WalkFn Unit) (hw : WalkFnRel cfg wa wb) (path : Path) (src : Src) (node : Val)
+theorem attr_rel (wa wb : WalkFn Unit) (hw : WalkFnRel Q cfg wa wb) (path : Path) (src : Src) (node : Val)
     (a : AttrSrc) (pos : Option Int) (ca cb : List Chunk) (sa sb : Unit)
     (ha : attrStep cfg wa path src node a pos () = .ok (ca, sa))
     (hb : attrStep (withResolve cfg fB) wb path src node a pos () = .ok (cb, sb)) :
-    CRel cfg ca cb := by
+    CRel Q cfg ca cb := by
   unfold attrStep at ha hb
   split at ha
   · cases ha
@@ -217,7 +217,7 @@ theorem attr_rel (wa wb : WalkFn Unit) (hw : WalkFnRel cfg wa wb) (path : Path) 
     split at hb
     · cases hb
     · rename_i vb s2 gb
-      rcases getSrc_rel hA hrel path node a va vb _ _ ga gb with h | ⟨_, hk, ta, tb, h1, h2, h3⟩
+      rcases getSrc_rel hA hrel path node a va vb _ _ ga gb with h | ⟨_, hk, ta, tb, h1, h2, h3, hq⟩
       · subst h
         by_cases he : isEmptyVal va = true
         · rw [if_pos he] at ha hb
@@ -236,12 +236,12 @@ theorem attr_rel (wa wb : WalkFn Unit) (hw : WalkFnRel cfg wa wb) (path : Path) 
         obtain ⟨xb, eb, e2⟩ := exc_map_ok hb
         simp only [Prod.mk.injEq] at e1 e2
         rw [← e1.1, ← e2.1]
-        exact .tok _ _ ⟨pos, node, src, ta, tb, hk, h3, ea, eb⟩
+        exact .tok _ _ ⟨pos, node, src, ta, tb, hk, h3, hq, ea, eb⟩
 
-theorem ruleStep_rel (wa wb : WalkFn Unit) (hw : WalkFnRel cfg wa wb) (path : Path) (src : Src) (node : Val)
+theorem ruleStep_rel (wa wb : WalkFn Unit) (hw : WalkFnRel Q cfg wa wb) (path : Path) (src : Src) (node : Val)
     (rule : Rule) (ca cb : List Chunk) (sa sb : Unit)
     (ha : ruleStep cfg wa path src node rule () = .ok (ca, sa))
-    (hb : ruleStep (withResolve cfg fB) wb path src node rule () = .ok (cb, sb)) : CRel cfg ca cb := by
+    (hb : ruleStep (withResolve cfg fB) wb path src node rule () = .ok (cb, sb)) : CRel Q cfg ca cb := by
   cases rule with
   | layout m =>
     have e : ruleStep (withResolve cfg fB) wb path src node (.layout m) () = ruleStep cfg wa path src node (.layout m) () := rfl
@@ -333,10 +333,10 @@ theorem ruleStep_rel (wa wb : WalkFn Unit) (hw : WalkFnRel cfg wa wb) (path : Pa
 
 omit hA hrel in
 theorem nodeStep_rel (ra rb : Path → Src → Val → Rule → Unit → Except Err (List Chunk × Unit))
-    (hr : ∀ q sr n r ca cb sa sb, ra q sr n r () = .ok (ca, sa) → rb q sr n r () = .ok (cb, sb) → CRel cfg ca cb)
+    (hr : ∀ q sr n r ca cb sa sb, ra q sr n r () = .ok (ca, sa) → rb q sr n r () = .ok (cb, sb) → CRel Q cfg ca cb)
     (path : Path) (src : Src) (node : Val) (defn : Option (List Rule)) (ca cb : List Chunk) (sa sb : Unit)
     (ha : nodeStep cfg ra path src node defn () = .ok (ca, sa))
-    (hb : nodeStep (withResolve cfg fB) rb path src node defn () = .ok (cb, sb)) : CRel cfg ca cb := by
+    (hb : nodeStep (withResolve cfg fB) rb path src node defn () = .ok (cb, sb)) : CRel Q cfg ca cb := by
   cases node with
   | node kind as =>
     simp only [nodeStep] at ha hb
@@ -355,9 +355,9 @@ theorem nodeStep_rel (ra rb : Path → Src → Val → Rule → Unit → Except 
   | list xs => simp [nodeStep] at ha
 
 theorem walk_rel : ∀ (fuel : Nat),
-    WalkFnRel cfg (walkNode cfg fuel) (walkNode (withResolve cfg fB) fuel) ∧
+    WalkFnRel Q cfg (walkNode cfg fuel) (walkNode (withResolve cfg fB) fuel) ∧
     (∀ q sr n r ca cb sa sb, walkRule cfg fuel q sr n r () = .ok (ca, sa) →
-      walkRule (withResolve cfg fB) fuel q sr n r () = .ok (cb, sb) → CRel cfg ca cb) := by
+      walkRule (withResolve cfg fB) fuel q sr n r () = .ok (cb, sb) → CRel Q cfg ca cb) := by
   intro fuel
   induction fuel with
   | zero =>
@@ -375,7 +375,7 @@ theorem walk_rel : ∀ (fuel : Nat),
 
 theorem walkChunks_rel (tree : Val) (ca cb : List Chunk) (sa sb : Unit)
     (ha : walkChunks cfg tree () = .ok (ca, sa))
-    (hb : walkChunks (withResolve cfg fB) tree () = .ok (cb, sb)) : CRel cfg ca cb := by
+    (hb : walkChunks (withResolve cfg fB) tree () = .ok (cb, sb)) : CRel Q cfg ca cb := by
   unfold walkChunks at ha hb
   have hf : fuelFor (withResolve cfg fB) tree = fuelFor cfg tree := rfl
   rw [hf] at hb
@@ -399,8 +399,12 @@ theorem getattrVal_value {node v : Val} (h : getattrVal node "value" = .ok v) : 
     simp only [Except.ok.injEq] at h
     rw [h]
 
+/-- the printed name is what `Scope.resolve` of some scope of the finished tree answers for the original -/
+def ObfQ (fin : Final) (ta tb : String) : Prop :=
+  ∃ sid tables, lookupChain fin.chains sid = some tables ∧ ta = resolveTables tables tb
+
 /-- `Obfuscator.resolve` against the hook that prints `node.value` -/
-theorem hookRel_obf (fin : Final) : HookRel (obfResolveHook fin) plainResolveHook := by
+theorem hookRel_obf (fin : Final) : HookRel (ObfQ fin) (obfResolveHook fin) plainResolveHook := by
   intro path node va vb sa sb ha hb
   unfold obfResolveHook at ha
   unfold plainResolveHook at hb
@@ -411,13 +415,15 @@ theorem hookRel_obf (fin : Final) : HookRel (obfResolveHook fin) plainResolveHoo
   unfold resolveIdent at ea
   split at ea
   · rw [ea] at eb; cases eb; exact Or.inl rfl
-  · rw [eb] at ea
+  · rename_i sid _
+    rw [eb] at ea
     cases wb with
     | str s =>
       simp only at ea
       split at ea
-      · simp only [Except.ok.injEq] at ea
-        exact Or.inr ⟨_, s, ea.symm, rfl, getattrVal_value eb⟩
+      · rename_i tables hlc
+        simp only [Except.ok.injEq] at ea
+        exact Or.inr ⟨_, s, ea.symm, rfl, getattrVal_value eb, sid, tables, hlc, rfl⟩
       · cases ea
     | none => simp only [Except.ok.injEq] at ea; exact Or.inl ea.symm
     | bool b => simp only [Except.ok.injEq] at ea; exact Or.inl ea.symm
@@ -436,7 +442,7 @@ theorem obf_walk_rel (t : Tables) (rs : RuleSet) (indent : Option String) (fin :
     (h : deferLookup rs.deferrable .resolve = some .obfResolve) (tree : Val) (ca cb : List Chunk) (sa sb : Unit)
     (ha : walkChunks (mkCfg t rs indent (obfResolveHook fin)) tree () = .ok (ca, sa))
     (hb : walkChunks (mkCfg t rs indent plainResolveHook) tree () = .ok (cb, sb)) :
-    CRel (mkCfg t rs indent (obfResolveHook fin)) ca cb := by
+    CRel (ObfQ fin) (mkCfg t rs indent (obfResolveHook fin)) ca cb := by
   obtain ⟨e, hA⟩ := mkCfg_withResolve t rs indent (obfResolveHook fin) plainResolveHook h
   rw [e] at hb
   exact walkChunks_rel hA (hookRel_obf fin) tree ca cb sa sb ha hb
@@ -505,17 +511,17 @@ theorem tokenUnobfuscate_pair (hd : HData) (pos : Option Int) (node : Val) (src 
           exact ⟨_, _, rfl, rfl, rfl, rfl, rfl, rfl, Or.inr ⟨rfl, hte, fun _ => ⟨rfl, rfl⟩⟩⟩
         · cases ea
 
-theorem tokRel_unobfuscate (cfg : Cfg Unit) (hth : cfg.tokenHandler = some .unobfuscate) (ca cb : List Chunk)
-    (h : TokRel cfg ca cb) :
-    ∃ fa fb, ca = [.frag fa] ∧ cb = [.frag fb] ∧ fb.name = none ∧ fa.source = fb.source ∧
+theorem tokRel_unobfuscate {Q : String → String → Prop} (cfg : Cfg Unit)
+    (hth : cfg.tokenHandler = some .unobfuscate) (ca cb : List Chunk) (h : TokRel Q cfg ca cb) :
+    ∃ fa fb, ca = [.frag fa] ∧ cb = [.frag fb] ∧ fb.name = none ∧ fa.source = fb.source ∧ Q fa.text fb.text ∧
       (fa = fb ∨ (fa.name = some fb.text ∧ fa.text ≠ fb.text ∧
         (fb.text ≠ "" → fa.line = fb.line ∧ fa.col = fb.col))) := by
-  obtain ⟨pos, node, src, ta, tb, hk, hv, ea, eb⟩ := h
+  obtain ⟨pos, node, src, ta, tb, hk, hv, hq, ea, eb⟩ := h
   simp only [emitToken, hth, tokenHandler] at ea eb
   obtain ⟨fsa, ea', rfl⟩ := exc_map_ok ea
   obtain ⟨fsb, eb', rfl⟩ := exc_map_ok eb
   obtain ⟨fa, fb, rfl, rfl, h1, h2, h3, h4, h5⟩ := tokenUnobfuscate_pair _ pos node src ta tb hk hv fsa fsb ea' eb'
-  refine ⟨fa, fb, rfl, rfl, h1, h2, ?_⟩
+  refine ⟨fa, fb, rfl, rfl, h1, h2, by rw [h3, h4]; exact hq, ?_⟩
   rcases h5 with h5 | ⟨h5, h6, h7⟩
   · exact Or.inl h5
   · exact Or.inr ⟨by rw [h3]; exact h5, by rw [h3, h4]; exact h6, by rw [h3]; exact h7⟩
